@@ -38,6 +38,7 @@ Section WitnessProofs.
   Variable H : bytes -> bytes.
   Variable hlen : nat.
   Variable strict_len : bool.
+  Variable cosign_held : bool.
   Variable idhash : logid -> option (option bytes).
   Variable decode : bytes -> option psth.
   Variable sig_ok : logid -> psth -> bool.
@@ -45,13 +46,14 @@ Section WitnessProofs.
   Variable verify : bytes -> bytes -> bool.
 
   Notation parse := (parse idhash decode sig_ok).
-  Notation update := (update H hlen strict_len idhash decode sig_ok sign).
+  Notation update := (update H hlen strict_len cosign_held idhash decode sig_ok sign).
   Notation get_sth := (get_sth idhash decode sig_ok sign).
-  Notation step := (step H hlen strict_len idhash decode sig_ok sign).
-  Notation run := (run H hlen strict_len idhash decode sig_ok sign).
-  Notation run_state := (run_state H hlen strict_len idhash decode sig_ok sign).
+  Notation step := (step H hlen strict_len cosign_held idhash decode sig_ok sign).
+  Notation run := (run H hlen strict_len cosign_held idhash decode sig_ok sign).
+  Notation run_state := (run_state H hlen strict_len cosign_held idhash decode sig_ok sign).
   Notation held := (held idhash decode sig_ok).
   Notation cosign := (cosign sign).
+  Notation held_body := (held_body cosign_held sign).
   Notation sized := (sized hlen).
 
   (* ---------------------------------------------------------------- parse *)
@@ -93,7 +95,8 @@ Section WitnessProofs.
   Lemma update_inv st id raw pf f st' r : update st id raw pf f = (st', r) ->
     (st' = st /\
        (r = (BNone, ENotFound) \/ r = (BNone, EOther) \/
-        exists prevRaw, lookup st id = Some prevRaw /\ (r = (BRaw prevRaw, EFailedPre) \/ r = (BRaw prevRaw, EOk))))
+        exists prevRaw prev, lookup st id = Some prevRaw /\ parse prevRaw id = inl prev
+          /\ (r = (held_body prevRaw prev, EFailedPre) \/ r = (held_body prevRaw prev, EOk))))
     \/ (exists next, grows st id raw pf next /\ st' = store st id raw /\ r = (cosign next, EOk)).
   Proof.
     unfold WitnessModel.update, refused, failed, commit, grows. intros Hu.
@@ -103,12 +106,12 @@ Section WitnessProofs.
     - (* NoFault *)
       destruct (lookup st id) as [prevRaw|] eqn:El.
       + destruct (parse prevRaw id) as [prev|e] eqn:Epp; [| injection Hu as <- <-; left; auto].
-        destruct (p_size next <? p_size prev) eqn:E1; [injection Hu as <- <-; left; split; auto; right; right; eauto|].
+        destruct (p_size next <? p_size prev) eqn:E1; [injection Hu as <- <-; left; split; auto; right; right; eauto 7|].
         destruct (p_size next =? p_size prev) eqn:E2.
-        { destruct (negb (bytes_eqb (p_root next) (p_root prev))); injection Hu as <- <-; left; split; auto; right; right; eauto. }
-        destruct (strict_len && negb (forallb (sized_b hlen) pf)) eqn:E3; [injection Hu as <- <-; left; split; auto; right; right; eauto|].
+        { destruct (negb (bytes_eqb (p_root next) (p_root prev))); injection Hu as <- <-; left; split; auto; right; right; eauto 7. }
+        destruct (strict_len && negb (forallb (sized_b hlen) pf)) eqn:E3; [injection Hu as <- <-; left; split; auto; right; right; eauto 7|].
         destruct (verify_consistency H (p_size prev) (p_size next) pf (p_root prev) (p_root next)) eqn:E4;
-          cbn [negb] in Hu; [| injection Hu as <- <-; left; split; auto; right; right; eauto].
+          cbn [negb] in Hu; [| injection Hu as <- <-; left; split; auto; right; right; eauto 7].
         injection Hu as <- <-. right. exists next. split; [|auto]. split; [reflexivity|].
         right. exists prevRaw, prev. apply N.ltb_ge in E1. apply N.eqb_neq in E2.
         repeat split; auto; try lia.
@@ -117,12 +120,12 @@ Section WitnessProofs.
     - (* FSet *)
       destruct (lookup st id) as [prevRaw|] eqn:El.
       + destruct (parse prevRaw id) as [prev|e] eqn:Epp; [| injection Hu as <- <-; left; auto].
-        destruct (p_size next <? p_size prev) eqn:E1; [injection Hu as <- <-; left; split; auto; right; right; eauto|].
+        destruct (p_size next <? p_size prev) eqn:E1; [injection Hu as <- <-; left; split; auto; right; right; eauto 7|].
         destruct (p_size next =? p_size prev) eqn:E2.
-        { destruct (negb (bytes_eqb (p_root next) (p_root prev))); injection Hu as <- <-; left; split; auto; right; right; eauto. }
-        destruct (strict_len && negb (forallb (sized_b hlen) pf)) eqn:E3; [injection Hu as <- <-; left; split; auto; right; right; eauto|].
+        { destruct (negb (bytes_eqb (p_root next) (p_root prev))); injection Hu as <- <-; left; split; auto; right; right; eauto 7. }
+        destruct (strict_len && negb (forallb (sized_b hlen) pf)) eqn:E3; [injection Hu as <- <-; left; split; auto; right; right; eauto 7|].
         destruct (negb (verify_consistency H (p_size prev) (p_size next) pf (p_root prev) (p_root next)));
-          injection Hu as <- <-; left; split; auto; right; right; eauto.
+          injection Hu as <- <-; left; split; auto; right; right; eauto 7.
       + injection Hu as <- <-. left. auto.
   Qed.
 
@@ -262,16 +265,25 @@ Section WitnessProofs.
 
   Definition op_id (o : op) : logid := match o with OUpdate id _ _ _ => id | OGetSTH id _ => id | OGetLogs _ => [] end.
 
+  (* Whatever cosigned body an operation returns: the signature is the witness's over the TLS
+     encoding of that very STH, and that STH is what the table holds for the log once the
+     operation is done.  (With the code as it is a cosigned body also means success.) *)
   Lemma cosigned_inv st o st' p sg e : wf st -> step st o = (st', ORsp (BCosigned p sg, e)) ->
-    e = EOk /\ sg = sign (sth_enc p) /\ verify (sth_enc p) sg = true /\ held st' (op_id o) = Some p.
+    (cosign_held = false -> e = EOk) /\ sg = sign (sth_enc p) /\ verify (sth_enc p) sg = true
+    /\ held st' (op_id o) = Some p.
   Proof.
     intros Hwf Hs. destruct o as [id raw pf f|id fl|fl]; cbn [WitnessModel.step op_id] in *.
     - destruct (update st id raw pf f) as [st1 r] eqn:Eu. injection Hs as <- ->.
-      destruct (update_inv _ _ _ _ _ _ _ Eu) as [[-> [R|[R|(pr & _ & [R|R])]]]|(next & [Hp _] & -> & R)];
+      destruct (update_inv _ _ _ _ _ _ _ Eu) as [[-> [R|[R|(pr & pv & Hl & Hpp & R)]]]|(next & [Hp _] & -> & R)];
         try discriminate R.
-      unfold WitnessModel.cosign in R. injection R as -> -> ->.
-      split; [reflexivity|]. split; [reflexivity|]. split; [apply sign_verify|].
-      unfold WitnessModel.held. rewrite lookup_store_same, Hp. reflexivity.
+      + assert (Hb : BCosigned p sg = held_body pr pv) by (destruct R as [R|R]; injection R as R _; exact R).
+        unfold WitnessModel.held_body in Hb, R. destruct cosign_held; [|discriminate Hb].
+        unfold WitnessModel.cosign in Hb. injection Hb as -> ->.
+        split; [discriminate|]. split; [reflexivity|]. split; [apply sign_verify|].
+        unfold WitnessModel.held. rewrite Hl, Hpp. reflexivity.
+      + unfold WitnessModel.cosign in R. injection R as -> -> ->.
+        split; [reflexivity|]. split; [reflexivity|]. split; [apply sign_verify|].
+        unfold WitnessModel.held. rewrite lookup_store_same, Hp. reflexivity.
     - injection Hs as <- Hg. unfold WitnessModel.get_sth in Hg.
       destruct fl; [discriminate|]. destruct (lookup st id) as [raw|] eqn:El; [|discriminate].
       destruct (parse raw id) as [q|] eqn:Ep; [|discriminate].
@@ -299,7 +311,7 @@ Section WitnessProofs.
     (p_size next < p_size prev
      \/ (p_size next = p_size prev /\ p_root next <> p_root prev)
      \/ (p_size prev < p_size next /\ verify_consistency H (p_size prev) (p_size next) pf (p_root prev) (p_root next) = false)) ->
-    update st id raw pf NoFault = (st, (BRaw prevRaw, EFailedPre)).
+    update st id raw pf NoFault = (st, (held_body prevRaw prev, EFailedPre)).
   Proof.
     intros Hp Hl Hpp Hc. unfold WitnessModel.update, refused.
     destruct (parse_ok_inv _ _ _ Hp) as (h & p0 & Ei & _).
